@@ -176,7 +176,7 @@ def rule_sites(ctx):
         if cs:
             found[b["def_path"]] = (b, cs)
     total = sum(len(v[1]) for v in found.values())
-    ctx.floor("SITES", "substitute_call_sites", total, 10)
+    ctx.floor("SITES", "substitute_call_sites", total, 4)
     for dp, (b, cs) in found.items():
         name = [k for k in SITES if dp.endswith(k) or k in dp]
         ctx.add("SITES", "known-caller:" + hq.last(dp, 2), bool(name) and len(cs) == SITES.get(name[0] if name else "", -1), ctx.site(b),
